@@ -124,7 +124,10 @@ def olc_debug_binary():
 
 
 def run_scenarios(prop, tier, scenarios, deadline_s, runner="olc", extra_assumptions=None, rule=None, assumptions=None,
-                  finish=True, binary=None, fatal_property=None):
+                  finish=True, binary=None, fatal_property=None, report_as=None):
+    """report_as: {property the runner's oracle names: property to report it under} - for program families in which an
+    oracle's verdict is, by construction of the family, a violation of another property's clause"""
+    report_as = report_as or {}
     t0 = time.time()
     if binary is None:
         binary = binary_for(scenarios[0]) if scenarios else olc_binary(True)
@@ -187,7 +190,9 @@ def run_scenarios(prop, tier, scenarios, deadline_s, runner="olc", extra_assumpt
                 payload = dict(engine=engine_name, scenario={k: sc[k] for k in ("id", "init", "threads", "runner", "delay_bounded", "closure") if k in sc},
                                choices=v["choices"], preemptions=v["preemptions"], property=v["property"],
                                signature=v["signature"], what=v["what"], build_flags=olc_flags(True))
-                report.violation(v["property"], v["signature"], v["what"], payload, sc["id"])
+                if v["property"] in report_as:
+                    payload["reported_property"] = report_as[v["property"]]
+                report.violation(report_as.get(v["property"], v["property"]), v["signature"], v["what"], payload, sc["id"])
         else:
             pr = read_progress(j["prog"])
             vprop, vsig = classify_fatal(rc, pr["what"] if pr else "")
@@ -207,7 +212,9 @@ def run_scenarios(prop, tier, scenarios, deadline_s, runner="olc", extra_assumpt
                            choices=pr["choices"], property=vprop, signature=vsig, what=what, exit_status=rc,
                            stderr_tail=se[-1500:], build_flags=olc_flags(True))
             agg["violations_total"] += 1
-            report.violation(vprop, vsig, what, payload, sc["id"])
+            if vprop in report_as:
+                payload["reported_property"] = report_as[vprop]
+            report.violation(report_as.get(vprop, vprop), vsig, what, payload, sc["id"])
     shutil.rmtree(tmpdir, ignore_errors=True)
     wall = time.time() - t0
     exhaustive = agg["scen_skipped"] == 0 and agg["incomplete"] == 0 and not report.infra_errors
